@@ -47,6 +47,8 @@ impl Kind {
 
 #[derive(Clone, Debug)]
 pub struct YSpec {
+    /// the grammar `mk_spec` was given (replay files store it)
+    pub base: RefGrammar,
     pub g: RefGrammar,
     pub kind: Kind,
     token_decl: bool,
@@ -100,6 +102,7 @@ pub fn mk_spec(base: &RefGrammar, kind: Kind, feats: &[&'static str]) -> Option<
         return None;
     }
     Some(YSpec {
+        base: base.clone(),
         g,
         kind,
         token_decl: has("token_decl"),
@@ -330,9 +333,45 @@ fn strip_layout(s: &str) -> String {
 
 /// Compare the grammar built from `text` with the abstract specification; returns the digest
 /// (everything but spans) or None when something was reported.
+/// Everything needed to rebuild the abstract specification and its rendering.
+fn replay_case(s: &YSpec, l: &Layout, text: &str) -> serde_json::Value {
+    json!({
+        "text": text,
+        "base": s.base.to_json(),
+        "kind": format!("{:?}", s.kind),
+        "features": s.features,
+        "layout": {"quote": format!("{:?}", l.quote), "gap": l.gap, "reversed": l.reversed, "percent_empty": l.percent_empty, "header": l.header},
+    })
+}
+
+fn spec_from_replay(case: &serde_json::Value) -> Option<(YSpec, Layout)> {
+    let base = RefGrammar::from_json(&case["base"])?;
+    let kind = match case["kind"].as_str()? {
+        "NoAction" => Kind::NoAction,
+        "Gpt" => Kind::Gpt,
+        "UserAction" => Kind::UserAction,
+        "Grmtools" => Kind::Grmtools,
+        _ => Kind::Eco,
+    };
+    let feats: Vec<&'static str> = case["features"].as_array()?.iter().filter_map(|f| FEATURES.iter().find(|x| Some(**x) == f.as_str()).copied()).collect();
+    let l = &case["layout"];
+    let layout = Layout {
+        quote: match l["quote"].as_str()? {
+            "Single" => Quote::Single,
+            "Double" => Quote::Double,
+            _ => Quote::Bare,
+        },
+        gap: l["gap"].as_u64()? as usize,
+        reversed: l["reversed"].as_bool()?,
+        percent_empty: l["percent_empty"].as_bool()?,
+        header: l["header"].as_bool()?,
+    };
+    Some((mk_spec(&base, kind, &feats)?, layout))
+}
+
 fn check_one(ctx: &Ctx, s: &YSpec, l: &Layout, text: &str, st: &mut Stats) -> Option<String> {
     let g = &s.g;
-    let case = || json!({"text": text, "kind": format!("{:?}", s.kind), "features": s.features, "layout": format!("{:?}", l)});
+    let case = || replay_case(s, l, text);
     let built = if l.header { YaccGrammar::<u32>::from_str(text) } else { YaccGrammar::<u32>::new_with_storaget(s.kind.yk(), text) };
     let grm = match built {
         Ok(x) => x,
@@ -701,9 +740,14 @@ fn layouts(quick: bool) -> Vec<Layout> {
 
 pub fn run(ctx: Ctx) -> i32 {
     if let Some(case) = load_replay(&ctx) {
-        let text = case["text"].as_str().unwrap_or("");
-        let r = YaccGrammar::<u32>::from_str(text);
-        ctx.note(&format!("replay: from_str ok = {}", r.is_ok()));
+        // rebuild the abstract specification and the one rendering, and make the same comparison
+        let Some((spec, layout)) = spec_from_replay(&case) else { machinery("replay: the case does not describe a specification") };
+        let Some(r) = render(&spec, &layout) else { machinery("replay: the layout does not apply to the specification") };
+        if case["text"].as_str() != Some(r.text.as_str()) {
+            machinery("replay: the rendering differs from the stored text (harness changed since the file was written)");
+        }
+        let mut st = Stats::default();
+        check_one(&ctx, &spec, &layout, &r.text, &mut st);
         return ctx.finish(json!({"states":1,"transitions":1,"traces_validated_against_impl":1,"samples":[case]}), &[], false);
     }
     let mut bases: Vec<RefGrammar> = if ctx.quick() { Universe::new(2, 2, 2, 2, 3).enumerate() } else { Universe::new(2, 3, 2, 3, 5).enumerate() };
@@ -755,7 +799,7 @@ pub fn run(ctx: Ctx) -> i32 {
                         ctx.violation(
                             "c10-rendering-dependent",
                             &format!("two renderings of one specification give different grammars: layout {:?} vs {:?}\n{}\n---\n{}", l0, l, render(&spec, l0).unwrap().text, render(&spec, l).unwrap().text),
-                            json!({"text": render(&spec, l).unwrap().text}),
+                            replay_case(&spec, l, &render(&spec, l).unwrap().text),
                         );
                         break;
                     }
